@@ -18,6 +18,7 @@ from __future__ import annotations
 
 import itertools
 
+from harness import c12long
 from harness.check import Component
 
 LEAN_TARGETS = ["Aiortc.Props.C12", "Aiortc.Props.C12Delivery"]
@@ -34,7 +35,8 @@ MANIFEST = {
             "is tied to the real class by running identical histories through both and comparing every return value and the final tables. "
             "At transport level a compound RTCP datagram is proved to be routed packet by packet on the tables as they are when each packet's turn comes "
             "(handlers and other tasks may change them during every delivery), so an endpoint unregistered in the middle of a datagram gets none of the "
-            "packets behind; checked against a real RTCDtlsTransport with scripted stub endpoints.",
+            "packets behind; checked against a real RTCDtlsTransport with scripted stub endpoints. The tables have no capacity limit: any number of new streams "
+            "latch and stick, any number of senders are reachable (proved for lists of any length; run with up to thousands of SSRCs / endpoints).",
     "note": "Needs fixes/C12-remb-truncated-fci.patch (struct.error escaping route_rtcp on a REMB whose SSRC count exceeds its length).",
     "design_ref": "DESIGN.md §2 C12",
 }
@@ -60,7 +62,11 @@ RULE = ("histories of 0..40 operations over <=6 receivers, <=6 senders, SSRC poo
         "histories plus traffic histories (bursts of 2..7 RTCP packets about the registered streams in one compound datagram, the same packet twice, RTP) with 0..3 "
         "scripted handlers (on the k-th packet handed to an endpoint: stop itself / another receiver / a sender, start a new endpoint, hand the stream over; inline, "
         "after yielding, or by another task while the handler is suspended) plus every compound datagram of 2..3 (thorough: ..4) packets over a 4-letter alphabet x "
-        "every one of 16 single scripted changes; distinct = distinct history; nontrivial = some packet was routed to somebody")
+        "every one of 16 single scripted changes; LONG histories (harness/c12long.py) about n = 60..70, 127..130, 255..257, 1000+ (thorough: ..4097, 10000) distinct "
+        "streams / endpoints / cycles in five shapes (n unknown SSRCs latch, then a competing receiver and RTP / SR / BYE for every one; n SSRCs and n sender SSRCs "
+        "registered on 1..n endpoints, all 128 payload types, BYE / RR / REMB with up to 255 entries, every third endpoint unregistered; n register-traffic-unregister "
+        "cycles; n streams over all 128 payload types; the random mix over a pool of n SSRCs), every size x every shape on the bare router, a dozen through the transport; "
+        "distinct = distinct history; nontrivial = some packet was routed to somebody")
 
 SSRCS = [0, 1, 2, 1234, 5678, 0x7FFFFFFF, 0x80000000, 0xFFFFFFFF]
 PTS = [0, 8, 96, 97, 98, 111, 127]
@@ -228,14 +234,23 @@ def ref_history(ops, scripts=(), compound=False, observed=None):
     for kind, i, nth, tops, _mode, _yields in scripts:
         fire.setdefault((f"{kind}{i}", nth), []).extend(tops)
     res = []
+    reg = None      # (registered receivers, registered senders), shared by the entries until a table operation changes them
     for group in datagrams(ops, compound):
         snap = copy.deepcopy(ref) if len(group) > 1 else None
         for j, op in enumerate(group):
-            entry = {"reg_r": set(ref.registered), "reg_s": set(ref.snd.values()), "stale": None, "fired": 0, "firing": [], "maybe": set()}
+            if op[0] in ("rr", "rs", "ur", "us"):
+                cur = (frozenset(), frozenset())       # nothing is routed by a table operation
+            else:
+                if reg is None:
+                    reg = (frozenset(ref.registered), frozenset(ref.snd.values()))
+                cur = reg
+            entry = {"reg_r": cur[0], "reg_s": cur[1], "stale": None, "fired": 0, "firing": [], "maybe": set()}
             if snap is not None and j > 0:
                 entry["stale"] = copy.deepcopy(snap).step(op)[0]
             entry["want"], entry["label"] = ref.step(op)
-            if op[0] not in ("rr", "rs", "ur", "us"):
+            if op[0] in ("rr", "rs", "ur", "us"):
+                reg = None
+            else:
                 delivered = names_of(entry["want"])
                 if observed is not None and len(res) < len(observed):
                     delivered = sorted(set(x for x in names_of(observed[len(res)]) if x[:1] in "RS" and x[1:].isdigit()))
@@ -246,6 +261,7 @@ def ref_history(ops, scripts=(), compound=False, observed=None):
                         entry["firing"].append((nm, seen[nm], tops))
                 for nm, _n, tops in entry["firing"]:
                     for t in tops:
+                        reg = None
                         ref.step(t)
                         entry["fired"] += 1
                         gone = {"ur": "R", "us": "S"}.get(t[0])
@@ -732,13 +748,52 @@ def _shrink_ops(ops):
             yield ops[:i] + [op[:4] + [op[4][:-2]]] + ops[i + 1:]
 
 
+def _long_suffix(case):
+    if "long" not in case:
+        return ""
+    return "+long-" + case["long"].split("/")[0] + "(" + c12long.bucket(case["ops"]) + ")"
+
+
+def long_cases(rng, tier, transport):
+    """Histories about MANY streams / endpoints / payload types / cycles (harness/c12long.py): the tables pass every size up to
+    n in {60..70, 127..130, 255..257, 1000+} and every entry is probed afterwards. Bare router: every size x every shape (cheap,
+    thousands of operations per case); transport: a few of them, through serialised packets and the stub endpoints' callbacks,
+    some with a handler that changes the tables on its 2nd..n-th packet."""
+    sizes = c12long.SIZES[tier]
+    out = []
+    if not transport:
+        reps = 1 if tier == "quick" else 3
+        for _ in range(reps):
+            for n in sizes:
+                for shape in c12long.SHAPES:
+                    out.append({"ops": c12long.gen_long(rng, shape, n, gen_op), "long": f"{shape}/{n}"})
+        for n in ([1000, 1030] if tier == "quick" else [6000, 10000]):
+            out.append({"ops": c12long.gen_long(rng, "latch", n, gen_op), "long": f"latch/{n}"})
+            out.append({"ops": c12long.gen_long(rng, "registered", n, gen_op), "long": f"registered/{n}"})
+        return out
+    picks = [(shape, rng.choice(sizes[:11])) for shape in c12long.SHAPES] + \
+            [(shape, rng.choice(sizes[11:18])) for shape in c12long.SHAPES] + [("latch", 1001)]
+    if tier == "thorough":
+        picks += [(shape, n) for shape in c12long.SHAPES for n in rng.sample(sizes, 8)]
+    for shape, n in picks:
+        ops = c12long.gen_long(rng, shape, n, gen_op)
+        scripts = []
+        if rng.random() < 0.4:
+            who = ("R", 0) if rng.random() < 0.7 else ("S", 0)
+            nth = rng.choice([2, 30, 63, 64, 65, 66, 100, 128, 129, max(2, n // 2)])
+            scripts = [[who[0], who[1], nth, gen_table_change(rng, who, 2, 2, SSRCS, PTS), rng.choice(MODES), rng.choice([0, 1, 3])]]
+        out.append({"ops": ops, "compound": n <= 130 and rng.random() < 0.5, "rev": rng.randrange(2), "scripts": scripts, "long": f"{shape}/{n}"})
+    return out
+
+
 class Router(Component):
     name = "router"
     theorems = ["reachable_wf", "register_receiver_spec", "unregister_receiver_spec", "register_sender_spec", "unregister_sender_spec",
                 "route_rtp_spec", "route_rtp_none_iff", "route_rtp_state", "route_rtp_binds", "route_rtp_registered", "latch_sticks",
                 "rtp_after_latch", "route_rtcp_spec", "route_rtcp_never_raises", "route_rtcp_registered",
                 "rembList_of_isRemb", "rembList_of_not_isRemb", "route_rtcp_remb",
-                "unregistered_receiver_is_gone", "unregistered_sender_is_gone", "history_spec"]
+                "unregistered_receiver_is_gone", "unregistered_sender_is_gone", "history_spec",
+                "many_streams_all_latch", "many_streams_stick", "ssrc_table_unbounded", "many_senders_all_reachable"]
 
     def corpus(self):
         return [{"ops": ops} for ops in CORPUS]
@@ -757,6 +812,7 @@ class Router(Component):
             b = bytearray(good)
             b[4] = cnt
             out.append({"ops": [["rs", 0, 1234], ["rs", 1, 5678], ["rs", 2, 0], ["ps", 15, 1, 0, bytes(b).hex()]]})
+        out.extend(long_cases(rng, tier, transport=False))
         if tier == "thorough":
             # exhaustive: every history of length <= 5 over ALPHABET, every history of length 6 over ALPHABET6
             for L in range(1, 6):
@@ -813,12 +869,38 @@ class Router(Component):
         r = self._ref(case)
         if not r:
             return "empty"
-        return r[-1]["label"]
+        return r[-1]["label"] + _long_suffix(case)
 
     def nontrivial(self, case, impl_out):
         return any(e["want"] not in ("-", "N", "ok -") for e in self._ref(case))
 
+    def _fix(self, case):
+        return case
+
+    def _premin(self, case):
+        """Long failing histories: cut behind the first failing operation, then delta-debug chunks of decreasing size (the
+        one-op-at-a-time candidates below would spend the whole budget on a long essential prefix)."""
+        import re
+        if len(case["ops"]) <= 30 or case.get("dd"):
+            return None                 # short, or already delta-debugged (the mark is inherited by the candidates derived from it)
+
+        def fails(ops):
+            c = self._fix(dict(case, ops=ops))
+            return self.oracle(c, self.impl(c))
+        what = fails(case["ops"])
+        if not what:
+            return None
+        ops = case["ops"]
+        m = re.match(r"op (\d+) ", what)
+        if m and int(m.group(1)) + 1 < len(ops) and fails(ops[: int(m.group(1)) + 1]):
+            ops = ops[: int(m.group(1)) + 1]
+        ops = c12long.ddmin(ops, fails)
+        return self._fix(dict(case, ops=ops, dd=1))
+
     def shrink(self, case):
+        small = self._premin(case)
+        if small is not None:
+            yield small
         for ops in _shrink_ops(case["ops"]):
             yield dict(case, ops=ops)
 
@@ -994,6 +1076,7 @@ class Transport(Router):
         for _ in range(n):
             out.append(sanitize(gen_traffic_history(rng)))
         out.extend(sanitize(c) for c in small_cases(3 if tier == "quick" else 4))
+        out.extend(sanitize(c) for c in long_cases(rng, tier, transport=True))
         return out
 
     def _model_ops(self, case):
@@ -1023,9 +1106,15 @@ class Transport(Router):
             lab += "+changed-mid-datagram"       # a routing decision taken when the datagram arrived would be wrong
         elif any(e["fired"] for e in r):
             lab += "+handler-changed-tables"
-        return lab
+        return lab + _long_suffix(case)
+
+    def _fix(self, case):
+        return sanitize(case)
 
     def shrink(self, case):
+        small = self._premin(case)
+        if small is not None:
+            yield small
         scripts = case.get("scripts", [])
         for i in range(len(scripts)):
             yield sanitize(dict(case, scripts=scripts[:i] + scripts[i + 1:]))
